@@ -65,6 +65,7 @@ def collect(t, rnd):
     f_level = _get("cm_colors.core.contrast", "get_contrast_level")
     f_wcag = _get("cm_colors.core.contrast", "get_wcag_level")
     from cm_colors import ColorPair, make_readable_bulk
+    from cm_colors.core.colors import Color
     missing = [n for n, f in (("calculate_relative_luminance", f_lum), ("calculate_contrast_ratio", f_ratio),
                               ("get_contrast_level", f_level), ("get_wcag_level", f_wcag)) if f is None]
     obs = []
@@ -156,6 +157,14 @@ def collect(t, rnd):
     rnd.shuffle(rz)
     rz = rz[: (480 if t == "quick" else len(rz))]
     pl += rz + [(b_, a_) for a_, b_ in rz[:120]]
+    # EVERY colour within 5e-5 of a threshold against pure white / pure black (tools/gen_end_pairs.py; about 1000 colours):
+    # where a short cut for the commonest backgrounds with a rounded cut-off would differ
+    with open(os.path.join(os.path.dirname(os.path.abspath(__file__)), "end_pairs.json")) as f_:
+        ends_cat = json.load(f_)
+    ep = [(tuple(c_), (255, 255, 255) if k_.startswith("white") else (0, 0, 0)) for k_ in sorted(ends_cat) for c_ in ends_cat[k_]]
+    if t == "quick":
+        ep = [pr for k_ in sorted(ends_cat) for pr in [(tuple(c_), (255, 255, 255) if k_.startswith("white") else (0, 0, 0)) for c_ in ends_cat[k_][:70]]]
+    pl += ep + [(b_, a_) for a_, b_ in ep[::3]] + ep     # (twice: both size flags)
     # colours whose channels are all 0/1 or all 254/255 (integers that a "is this a 0..1 fraction?" heuristic could take for
     # something else) against black, white, themselves' neighbours and a mid grey, in both roles
     import itertools
@@ -180,6 +189,21 @@ def collect(t, rnd):
             except Exception:
                 pass
             obs.append(dict(e, readable=str(p.is_readable)))
+        elif idx % 3 == 1 and f_wcag:
+            # the pair's public attributes are replaced (another background - a theme switch -, another text, the other size):
+            # the label is that of the pair AS IT NOW IS (its own text.rgb, bg.rgb, large)
+            a2, b2 = pl[(idx * 7 + 3) % len(pl)]
+            try:
+                if idx % 2:
+                    p.bg = Color(b2)
+                else:
+                    p.text = Color(a2)
+                if idx % 4 >= 2:
+                    p.large = not p.large
+                na, nb, nl = tuple(p.text.rgb), tuple(p.bg.rgb), bool(p.large)
+                obs.append({"k": "pair", "a": list(na), "b": list(nb), "large": nl, "lvl": str(f_wcag(na, nb, nl)), "readable": str(p.is_readable)})
+            except Exception:
+                pass
     # ---- bulk status strings: label of the returned colour
     bl = [(a, b, bool(i & 1)) for i, (a, b) in enumerate(pl[: (300 if t == "quick" else 2500)])]
     bl += [(a, b, bool(i & 1)) for i, (a, b) in enumerate(zo[::3])]
